@@ -162,6 +162,8 @@ def check(repo, res, tier):
 
     # --------------------------------------------------------------- S5 R-DERIVED
     _check_derived(repo, res, cls)
+    res.rule("R-NAMESPACE", "the namespace in which equations are parsed contains no helper name that can shadow a model symbol")
+    _check_namespace(repo, res)
 
     # ----------------------------------------------------------------- S6 R-SHAPE
     check_shapes(repo, res, {"vMat", "ode", "eventRateVector", "pureOdeVector"},
@@ -405,6 +407,37 @@ def _check_argorder(repo, res, cls):
         ok = norm(b.get("inputSymb")) == cef.params[1] and norm(b.get("inputExpr")) == cef.params[2]
     res.check(ok, "R-ARGORDER", cef, "compile-what-was-given", "compileExpr(inputSymb, inputExpr, ...)",
               "compileExprAndFormat does not hand its own (inputSymb, inputExpr) to compileExpr", node=cef.node)
+
+
+def _check_namespace(repo, res):
+    """checkEquation creates the model's symbols with exec() in its own local namespace and parses with
+    parse_expr(..., locals()); any ordinary local of the function shadows a model symbol of the same name.
+    The function's own convention (docstring): every helper name starts with an underscore."""
+    ce = repo.func(M.M_VERIF, "checkEquation")
+    uses_locals = any(isinstance(n, ast.Call) and dotted(n.func) in ("locals", "exec", "eval") for n in ast.walk(ce.node))
+    if not uses_locals:
+        res.holds("R-NAMESPACE", ce, "no-shared-namespace", "checkEquation no longer evaluates in its own local namespace")
+        return
+    allowed = set(ce.params) | {"list_out"}
+    df = dataflow_of(ce)
+    names = {}
+    for d in df.defs:
+        if d.kind in ("assign", "for", "aug", "with", "except", "import", "def") and not d.name.startswith("_") and d.name not in allowed:
+            names.setdefault(d.name, d)
+    # comprehension variables live in their own scope in python 3.12 only when not inlined; be conservative and include them
+    for n in ast.walk(ce.node):
+        if isinstance(n, (ast.ListComp, ast.GeneratorExp, ast.SetComp, ast.DictComp)):
+            for g in n.generators:
+                for t in ast.walk(g.target):
+                    if isinstance(t, ast.Name) and not t.id.startswith("_") and t.id not in allowed:
+                        names.setdefault(t.id, None)
+    for nm, d in sorted(names.items()):
+        res.violated("R-NAMESPACE", ce, "local(%s)" % nm,
+                     "checkEquation binds the ordinary local name `%s`; the model's symbols are created in the same local namespace and parsed "
+                     "with locals(), so a state or parameter called `%s` is silently replaced by this helper value in every equation" % (nm, nm),
+                     node=d.stmt if d is not None else ce.node)
+    if not names:
+        res.holds("R-NAMESPACE", ce, "underscore-locals", "all helper locals of checkEquation start with an underscore (allowed: %s)" % sorted(allowed))
 
 
 def _check_derived(repo, res, cls):
